@@ -183,6 +183,14 @@ for _pid in ("C04", "C14"):
 PROPS["C05"]["theorem_modules"] = PROPS["C05"]["theorem_modules"] + ["DecProofs.Properties.C14GenTextGlue"]
 PROPS["C05"]["static_modules"] = PROPS["C05"]["static_modules"] + ["DecProofs.Static.Translated3"]
 
+# the composed scanner + numeric-phase model reaches no panic site on ANY text (C04ScanTotal); with the translated wrappers: C15GenTextTotal
+for _pid in ("C04", "C15"):
+    PROPS[_pid]["theorem_modules"] = PROPS[_pid]["theorem_modules"] + ["DecProofs.Properties.C04ScanTotal", "DecProofs.Properties.C15GenTextTotal"]
+# the feature configuration's bid128_fma wrapper, over the feature build's bid128_ext_fma as a parameter: frame + outcome
+for _pid in ("C02", "C14"):
+    PROPS[_pid]["theorem_modules"] = PROPS[_pid]["theorem_modules"] + ["DecProofs.Properties.C02GenTinyAfter"]
+PROPS["C02"]["static_modules"] = PROPS["C02"]["static_modules"] + ["DecProofs.Static.Translated3"]
+
 # secondary build configuration of C02 (thorough tier): the tininess-after-rounding cargo feature
 PROPS["C02"]["feature_configs"] = [{"feature": "tiny_after", "judge_tiny_after": True}]
 
